@@ -30,6 +30,10 @@ pub struct CsrCfg {
     pub wide: bool,
     pub fault_permille: u32,
     pub obs_seed: u64,
+    /// start from a graph that is a few nodes short of 256 (the whole u8 index space) or of
+    /// 1100, and let the history grow it past that
+    #[serde(default)]
+    pub many: bool,
 }
 
 #[derive(Clone, Debug, Serialize, Deserialize)]
@@ -110,13 +114,17 @@ impl History for CsrEngine {
     }
     fn gen_cfg(&self, rng: &mut Rng, tier: Tier) -> (CsrCfg, usize) {
         let wide = rng.chance(1, 6);
+        // (not in the visit engines: their battery compares all pairs of nodes in every view)
+        let many = !wide && !self.visit && rng.chance(1, 60);
         let base = if tier == Tier::Thorough { 30 } else { 20 };
-        let len = if wide { rng.range(10, 50) } else { rng.geometric(1, base, 90) };
+        let len = if wide { rng.range(10, 50) } else if many { rng.range(8, 30) } else { rng.geometric(1, base, 90) };
+        let width = Width::pick(rng);
         (
             CsrCfg {
                 directed: rng.chance(1, 2),
-                width: Width::pick(rng),
-                with_nodes: if rng.chance(1, 2) { Some(if wide { rng.range(40, 60) } else { rng.below(8) }) } else { None },
+                width,
+                with_nodes: if many { Some(if width == Width::U8 || rng.chance(1, 2) { rng.range(252, 255) } else { rng.range(1020, 1026) }) } else if rng.chance(1, 2) { Some(if wide { rng.range(40, 60) } else { rng.below(8) }) } else { None },
+                many,
                 wide,
                 fault_permille: *rng.pick(&[0u32, 50, 200]),
                 obs_seed: rng.next_u64(),
@@ -145,7 +153,7 @@ impl History for CsrEngine {
 
 fn gen_csr_op(rng: &mut Rng, cfg: &CsrCfg, m: &CsrModel, step: usize) -> CsrOp {
     let n = m.nodes.len();
-    let maxn = if cfg.wide { 64 } else { 10 };
+    let maxn = if cfg.many { 1300 } else if cfg.wide { 64 } else { 10 };
     let node = |rng: &mut Rng| -> usize {
         if n == 0 || (rng.below(1000) as u32) < cfg.fault_permille {
             n + rng.below(3)
@@ -158,6 +166,7 @@ fn gen_csr_op(rng: &mut Rng, cfg: &CsrCfg, m: &CsrModel, step: usize) -> CsrOp {
     }
     match rng.below(100) {
         0..=14 if n < maxn => CsrOp::AddNode,
+        15..=39 if cfg.many && n < maxn => CsrOp::AddNode,
         0..=69 => {
             // wide runs: keep hitting the long rows
             let a = if cfg.wide && rng.chance(2, 3) && n > 0 {
@@ -259,6 +268,24 @@ fn observe_csr<Ty: EdgeType, Ix: IndexType>(g: &Csr<u32, u32, Ty, Ix>, m: &CsrMo
         ensure!("into_edges", ed2 == exp_e, "IntoEdges::edges({}) = {:?}, model {:?}", a, ed2, exp_e);
         all_rows.extend(exp_e);
     }
+    if obs_rng.chance(1, 3) {
+        use crate::engines::iter_protocol as ip;
+        let salt = obs_rng.next_u64();
+        let res = (|| -> Result<(), String> {
+            ip("node_identifiers()", || g.node_identifiers(), |i| i.index(), salt)?;
+            ip("node_references()", || petgraph::visit::IntoNodeReferences::node_references(g), |r| (r.0.index(), *r.1), salt)?;
+            ip("edge_references()", || g.edge_references(), |e| (e.source().index(), e.target().index(), *e.weight()), salt)?;
+            if n > 0 {
+                let a = Ix::new((salt % n as u64) as usize);
+                ip(&format!("neighbors({})", a.index()), || IntoNeighbors::neighbors(g, a), |i| i.index(), salt)?;
+                ip(&format!("edges({})", a.index()), || g.edges(a), |e| (e.source().index(), e.target().index(), *e.weight()), salt)?;
+            }
+            Ok(())
+        })();
+        if let Err(e) = res {
+            return Err(("iterator-protocol", e));
+        }
+    }
     // edge_references walks all rows (C05 view; how often an undirected edge may appear is C06's business)
     let er: Vec<(usize, usize, u32)> = g.edge_references().map(|e| (e.source().index(), e.target().index(), *e.weight())).collect();
     if m.directed {
@@ -294,7 +321,8 @@ fn observe_csr<Ty: EdgeType, Ix: IndexType>(g: &Csr<u32, u32, Ty, Ix>, m: &CsrMo
 
 fn run_csr<Ty: EdgeType + CsrDir<Ix>, Ix: IndexType>(name: &'static str, visit: bool, cfg: &CsrCfg, mut feed: OpFeed<CsrOp>, acc: &mut Acc, ops: &mut Vec<CsrOp>) -> Exec {
     let max_index = <Ix as IndexType>::max().index();
-    let node_cap = 120usize.min(max_index);
+    // a u8 Csr holds 256 nodes (index 255 is an ordinary node here, there is no end marker)
+    let node_cap = if cfg.many { 1300usize.min(max_index.saturating_add(1)) } else { 120usize.min(max_index) };
     let n0 = cfg.with_nodes.unwrap_or(0).min(node_cap);
     let mut g: Csr<u32, u32, Ty, Ix> = match cfg.with_nodes {
         Some(_) => Csr::with_nodes(n0),
@@ -522,6 +550,9 @@ pub struct ListCfg {
     pub cap: Option<usize>,
     pub fault_permille: u32,
     pub obs_seed: u64,
+    /// start with a few nodes short of 256 (the whole u8 index space) or of 1030
+    #[serde(default)]
+    pub many: bool,
 }
 
 #[derive(Clone, Debug, Serialize, Deserialize)]
@@ -537,6 +568,7 @@ pub enum ListOp {
     /// k edges out of one node (targets a, a+1, ... cyclically): rows longer than a narrow
     /// index type can count
     BulkEdges { a: usize, k: usize },
+    BulkNodes(usize),
 }
 
 impl ListOp {
@@ -551,6 +583,7 @@ impl ListOp {
             ListOp::SetW(_) => ("edge_weight_mut", 6),
             ListOp::Clone => ("clone", 7),
             ListOp::BulkEdges { .. } => ("bulk_add_edges", 8),
+            ListOp::BulkNodes(_) => ("bulk_add_nodes", 9),
         }
     }
 }
@@ -574,14 +607,16 @@ impl History for ListEngine {
     }
     fn gen_cfg(&self, rng: &mut Rng, tier: Tier) -> (ListCfg, usize) {
         let base = if tier == Tier::Thorough { 30 } else { 20 };
+        let many = !self.visit && rng.chance(1, 80);
         (
             ListCfg {
                 width: Width::pick(rng),
                 cap: if rng.chance(1, 3) { Some(rng.below(20)) } else { None },
                 fault_permille: *rng.pick(&[0u32, 50, 200]),
                 obs_seed: rng.next_u64(),
+                many,
             },
-            rng.geometric(1, base, 90),
+            if many { rng.range(6, 24) } else { rng.geometric(1, base, 90) },
         )
     }
     fn execute(&self, cfg: &ListCfg, feed: OpFeed<ListOp>, acc: &mut Acc, ops: &mut Vec<ListOp>) -> Exec {
@@ -598,6 +633,12 @@ type Rows = Vec<Vec<(usize, u32)>>;
 
 fn gen_list_op(rng: &mut Rng, cfg: &ListCfg, rows: &Rows, remembered: usize) -> ListOp {
     let n = rows.len();
+    if cfg.many && n == 0 {
+        return ListOp::BulkNodes(if cfg.width == Width::U8 || rng.chance(1, 2) { rng.range(252, 255) } else { rng.range(1020, 1026) });
+    }
+    if cfg.many && rng.chance(1, 3) {
+        return ListOp::AddNode { how: rng.below(4) as u8, targets: vec![] };
+    }
     let node = |rng: &mut Rng| -> usize {
         if n == 0 || (rng.below(1000) as u32) < cfg.fault_permille {
             n + rng.below(3)
@@ -675,7 +716,8 @@ fn run_list<Ix: IndexType>(name: &'static str, visit: bool, cfg: &ListCfg, mut f
         let n = rows.len();
         match &op {
             ListOp::AddNode { how, targets } => {
-                if n >= 100usize.min(max_index) {
+                // a u8 List holds 256 nodes (index 255 is an ordinary node)
+                if n >= (if cfg.many { 1300usize.min(max_index.saturating_add(1)) } else { 100usize.min(max_index) }) {
                     acc.probe("list_add_node_skipped_at_cap");
                 } else {
                     let ts: Vec<(usize, u32)> = targets.iter().map(|&t| (t.min(n), fresh())).collect();
@@ -733,6 +775,20 @@ fn run_list<Ix: IndexType>(name: &'static str, visit: bool, cfg: &ListCfg, mut f
                     (Ok(_), false) => bail!(kind, "missing-panic", "{}({}, {}) succeeded with {} nodes", kind, a, b, n),
                     (Err(p), true) => bail!(kind, "panic", "{}({}, {}) panicked: {}", kind, a, b, p),
                 }
+            }
+            ListOp::BulkNodes(k) => {
+                for _ in 0..(*k).min(1300usize.min(max_index.saturating_add(1)).saturating_sub(rows.len())) {
+                    match catch(|| g.add_node()) {
+                        Ok(i) => {
+                            if i.index() != rows.len() {
+                                bail!(kind, "index", "add_node returned {} with {} nodes", i.index(), rows.len());
+                            }
+                        }
+                        Err(p) => bail!(kind, "panic", "add_node panicked with {} nodes: {}", rows.len(), p),
+                    }
+                    rows.push(vec![]);
+                }
+                acc.probe_if(rows.len() >= 252, "list_many_nodes");
             }
             ListOp::BulkEdges { a, k } => {
                 let a = *a;
@@ -862,6 +918,25 @@ fn run_list<Ix: IndexType>(name: &'static str, visit: bool, cfg: &ListCfg, mut f
             ensure!("edge_count", g.edge_count() == total && EdgeCount::edge_count(&g) == total, "edge_count() = {}, model {}", g.edge_count(), total);
             let ids: Vec<usize> = g.node_indices().map(|i| i.index()).collect();
             ensure!("node_indices", ids == (0..n).collect::<Vec<_>>(), "node_indices() = {:?}", ids);
+            if obs_rng.chance(1, 3) {
+                use crate::engines::iter_protocol as ip;
+                let salt = obs_rng.next_u64();
+                let res = (|| -> Result<(), String> {
+                    ip("node_indices()", || g.node_indices(), |i| i.index(), salt)?;
+                    ip("edge_indices()", || g.edge_indices(), |e| g.edge_endpoints(*e).map(|(x, y)| (x.index(), y.index())), salt)?;
+                    ip("edge_references()", || g.edge_references(), |e| (e.source().index(), e.target().index(), *e.weight()), salt)?;
+                    if n > 0 {
+                        let a = Ix::new((salt % n as u64) as usize);
+                        ip(&format!("edge_indices_from({})", a.index()), || g.edge_indices_from(a), |e| g.edge_endpoints(*e).map(|(x, y)| (x.index(), y.index())), salt)?;
+                        ip(&format!("neighbors({})", a.index()), || IntoNeighbors::neighbors(&g, a), |i| i.index(), salt)?;
+                        ip(&format!("edges({})", a.index()), || IntoEdges::edges(&g, a), |e| (e.source().index(), e.target().index(), *e.weight()), salt)?;
+                    }
+                    Ok(())
+                })();
+                if let Err(e) = res {
+                    return Err(("iterator-protocol", e));
+                }
+            }
             let exp_refs: Vec<(usize, usize, u32)> = rows.iter().enumerate().flat_map(|(a, r)| r.iter().map(move |x| (a, x.0, x.1))).collect();
             let refs: Vec<(usize, usize, u32)> = g.edge_references().map(|e| (e.source().index(), e.target().index(), *e.weight())).collect();
             ensure!("edge_references", refs == exp_refs, "edge_references() = {:?}, model (insertion order) {:?}", refs, exp_refs);
